@@ -55,9 +55,12 @@ package crl
 //@   ensures [not-http=>no-request] !IsPlainHTTP(crlURL) ==> err != nil && ncalls(Client.Do) == old(ncalls(Client.Do))
 //@   ensures [one-exchange] ncalls(Client.Do) <= old(ncalls(Client.Do)) + 1
 
-// safety and termination only: DER structure is not modelled
+// safety, termination and traversal: DER structure is not modelled, but the scan of the distribution points ends only
+// when the input is exhausted (stmt C18 "the first advertised location that answers": no advertised point is skipped)
+// and the list of locations only ever grows
 //@ func parseCRLDistributionPoint(value)
 //@   ensures [err] err != nil ==> len(result) == 0 && ExternalDyn(typeof(err)) && !IsNotFound(err)
+//@   assert after loop 0: [every-point-examined] len(val) == 0
 //@   loop 0
 //@     invariant true
 //@     decreases len(val)
